@@ -196,7 +196,8 @@ def task_wide(t):
     rep = run.Report()
     rec = sweep.Rec(rep)
     bdd, decl = sweep.wide_manager(nvars, env.SEED)
-    mine = sweep.shard(sweep.wide_subsets(nvars, 3), ns)[si]
+    kk = sweep.wide_k(nvars)
+    mine = sweep.shard(sweep.wide_subsets(nvars, kk), ns)[si]
     for lv in mine:
         names = tuple(decl[i] for i in lv)
         others = [i for i in range(nvars) if i not in lv]
@@ -205,7 +206,10 @@ def task_wide(t):
         U = Universe(names + tuple(dict.fromkeys(ex)))
         b = sweep.Builder(bdd, U)
         qsets = list(sweep.subsets(U.names))
-        for fu in U.all_functions(names):
+        if kk > 3:
+            # very wide manager: the large sets (five and more levels, some of them >= 32)
+            qsets = [q for q in qsets if len(q) >= kk or len(q) == 1]
+        for fu in sweep.wide_functions(U, names):
             if focus is not None and sweep.norm([lv, fu]) != sweep.norm(focus):
                 continue
             try:
@@ -245,6 +249,7 @@ def dispatch(t):
 
 def plan(tier):
     ts = [('wide', 10, si, 16, None) for si in range(16)]
+    ts += [('wide', sweep.XWIDE, si, 16, None) for si in range(16)]
     if tier == 'quick':
         n = 3
         for oi in range(6):
